@@ -546,11 +546,12 @@ static void print_block_msg(coap_pdu_t *p, coap_option_num_t optnum) {
 }
 
 /* xmit2 <szx> <bodyLen> <seed> <mtu2> <num.szx,…> : the SERVER sending a body with Block2.  The application answers a
- * GET carrying Block2 (0,0,szx) with coap_add_data_large_response() on a 1152-byte response PDU (printed first, with
+ * GET carrying Block2 (0,0,szx) with coap_add_data_large_response() on an <mtu1>-byte response PDU (<mtu2> = "mtu1:mtu2",
+ * default 1152; printed first, with
  * lg=<blk_size | -1>), then every item is a GET with Block2 (num,0,szx) given to the real coap_handle_request_send_block()
  * with a fresh response PDU of max size <mtu2>; per item: p (returned 0: passed to the application), c<code> (error
  * response), b<num>.<m>.<szx>:<len>:<hash> (block response), then /<lg_xmit->offset | ->.  rel = release callback runs. */
-static void do_xmit2(unsigned szx, size_t bodyLen, unsigned seed, size_t mtu2, char *seq) {
+static void do_xmit2(unsigned szx, size_t bodyLen, unsigned seed, size_t mtu1, size_t mtu2, char *seq) {
   static const uint8_t tok[4] = {0xa1, 0xa1, 0xa1, 0xa1};
   sim_reset();
   sim_log_enabled = 0;
@@ -569,7 +570,7 @@ static void do_xmit2(unsigned szx, size_t bodyLen, unsigned seed, size_t mtu2, c
   coap_add_token(req, 4, tok);
   coap_add_option(req, COAP_OPTION_URI_PATH, 1, (const uint8_t *)"b");
   coap_add_option(req, COAP_OPTION_BLOCK2, coap_encode_var_safe(buf, sizeof(buf), szx), buf);
-  rsp = coap_pdu_init(COAP_MESSAGE_ACK, COAP_RESPONSE_CODE_CONTENT, 1, 1152);
+  rsp = coap_pdu_init(COAP_MESSAGE_ACK, COAP_RESPONSE_CODE_CONTENT, 1, mtu1);
   coap_add_token(rsp, 4, tok);
   rel_count = 0;
   r = coap_add_data_large_response(res, s, req, rsp, NULL, COAP_MEDIATYPE_APPLICATION_OCTET_STREAM, -1, 0, bodyLen, body, rel_cb, NULL);
@@ -723,7 +724,10 @@ static void step(char *line) {
   } else if (!strcmp(w[0], "crcv") && n == 6) {
     do_crcv(atoi(w[1]), strtoull(w[2], 0, 10), (unsigned)strtoul(w[3], 0, 10), strcmp(w[4], "-") ? atol(w[4]) : -1, w[5]);
   } else if (!strcmp(w[0], "xmit2") && n == 6) {
-    do_xmit2((unsigned)strtoul(w[1], 0, 10), strtoull(w[2], 0, 10), (unsigned)strtoul(w[3], 0, 10), strtoull(w[4], 0, 10), w[5]);
+    size_t m1 = 1152, m2 = 0;
+    if (sscanf(w[4], "%zu:%zu", &m1, &m2) != 2) { m1 = 1152; m2 = strtoull(w[4], 0, 10); }
+    if (m1 < 8) { printf("bad-op"); return; }
+    do_xmit2((unsigned)strtoul(w[1], 0, 10), strtoull(w[2], 0, 10), (unsigned)strtoul(w[3], 0, 10), m1, m2, w[5]);
   } else if (!strcmp(w[0], "xmit1") && n == 6) {
     do_xmit1(strcmp(w[1], "-") ? atoi(w[1]) : -1, strtoull(w[2], 0, 10), (unsigned)strtoul(w[3], 0, 10), (unsigned)strtoul(w[4], 0, 10), w[5]);
   } else if (!strcmp(w[0], "xfer")) {
